@@ -56,39 +56,33 @@ theorem unflagged_options_default (c : Cli) :
 theorem defaults (p : Bytes) : cliToOptions (Cli.default p) = {} := by
   simp [cliToOptions, Cli.default]
 
-/-- The config-file words are spliced *after* the real arguments. Partial: every process argument is
-    valid Unicode (`env.map some`); see the two counterexamples below. -/
-theorem mergeConfig_eq_append_partial (env cfg : List Bytes) :
-    mergeConfig (env.map some) cfg = some (env ++ cfg) := by
-  have := mergeLoop_all_some env [] cfg
-  simpa [mergeConfig] using this
+/-- The config-file words come *after* the real arguments, and no argument is lost, whatever its
+    encoding (arguments are byte strings here: `OsString`s). Full strength since /repo commit f3c2040. -/
+theorem mergeConfig_eq_append (env cfg : List Bytes) :
+    mergeConfig env cfg = env ++ cfg ∧ (mergeConfig env cfg).length = env.length + cfg.length := by
+  simp [mergeConfig]
 
 /-- An empty config file changes nothing. -/
-theorem mergeConfig_nil (env : List Bytes) : mergeConfig (env.map some) [] = some env := by
-  simp [mergeConfig_eq_append_partial]
+theorem mergeConfig_nil (env : List Bytes) : mergeConfig env [] = env := by
+  simp [mergeConfig]
 
-/-- The full-strength statement: no argument is lost, whatever its encoding. -/
-def MergeConfigFull : Prop :=
-  ∀ (env : List (Option Bytes)) (cfg : List Bytes), ∃ merged, mergeConfig env cfg = some merged ∧
-    merged.length = env.length + cfg.length
+/-- The pinned splice (by index, skipping non-Unicode arguments) agreed with this on Unicode arguments. -/
+theorem mergeConfigOld_eq_append_partial (env cfg : List Bytes) :
+    mergeConfigOld (env.map some) cfg = some (mergeConfig env cfg) := by
+  have := mergeLoop_all_some env [] cfg
+  simpa [mergeConfigOld, mergeConfig] using this
 
-/-- The splice by index is only right when every argument is valid Unicode: a non-Unicode file argument
-    is silently dropped when a config file is read (`comrak --smart <non-unicode>` + empty config file:
-    standard input is rendered instead of the file) ... -/
-theorem mergeConfig_non_unicode_counterexample :
-    mergeConfig [some [0x63], some [0x2D, 0x2D, 0x73], none] [] = some [[0x63], [0x2D, 0x2D, 0x73]] := by
+/-- The pinned splice was only right when every argument is valid Unicode: a non-Unicode file argument
+    was silently dropped when a config file was read (`comrak --smart <non-unicode>` + empty config
+    file: standard input was rendered instead of the file) ... -/
+theorem mergeConfigOld_non_unicode_counterexample :
+    mergeConfigOld [some [0x63], some [0x2D, 0x2D, 0x73], none] [] = some [[0x63], [0x2D, 0x2D, 0x73]] := by
   decide
 
-/-- ... and when another argument follows it, `Vec::insert` is called past the end: the process panics
-    (`comrak <non-unicode> a` + empty config file). Recorded in known_findings.json. -/
-theorem mergeConfig_panic_counterexample :
-    mergeConfig [some [0x63], none, some [0x61]] [] = none := by decide
-
-theorem mergeConfigFull_fails : ¬ MergeConfigFull := by
-  intro h
-  obtain ⟨m, hm, _⟩ := h [some [0x63], none, some [0x61]] []
-  rw [mergeConfig_panic_counterexample] at hm
-  cases hm
+/-- ... and when another argument followed it, `Vec::insert` was called past the end: the process
+    panicked (`comrak <non-unicode> a` + empty config file). Repaired in /repo commit f3c2040. -/
+theorem mergeConfigOld_panic_counterexample :
+    mergeConfigOld [some [0x63], none, some [0x61]] [] = none := by decide
 
 /-- Formatter and highlighter: `--inplace` forces CommonMark; syntect is used exactly for HTML output
     (not in place) with a theme other than `""` / `none`. -/
@@ -211,7 +205,7 @@ theorem config_none (p : Bytes) (cfgFs : ConfigFs) (argv : List Bytes) (c : Cli)
 theorem config_appended (p : Bytes) (cfgFs : ConfigFs) (argv words : List Bytes) (c : Cli)
     (h : parseArgs p argv = .ok c) (hn : c.configFile ≠ N.none) (hw : cfgFs c.configFile = some (some words)) :
     cliWithConfig p cfgFs argv = parseArgs p (argv ++ words) := by
-  simp [cliWithConfig, h, hn, hw, mergeConfig_eq_append_partial]
+  simp [cliWithConfig, h, hn, hw, mergeConfig]
 
 /-! ## Non-vacuity: concrete command lines through the parser model -/
 
